@@ -344,25 +344,35 @@ Fixpoint fill_cache_from (c : cache) (lines : list (list Z)) : cache + load_err 
 
 Definition fill_cache (lines : list (list Z)) : cache + load_err := fill_cache_from [] lines.
 
-(* bufio.ScanLines: split at LF, drop one trailing CR, no empty last line *)
-Definition drop_cr (cur : list Z) : list Z :=      (* cur is the line reversed *)
-  match cur with c :: cur' => if c =? 13 then cur' else cur | [] => cur end.
-Fixpoint split_lines_aux (s cur : list Z) : list (list Z) :=
+(* bufio.ScanLines: split at LF, no empty last line; every line comes out REVERSED and raw (a
+   trailing CR, which ScanLines drops, is still its first element) *)
+Fixpoint split_rev (s cur : list Z) : list (list Z) :=
   match s with
-  | [] => match cur with [] => [] | _ => [rev (drop_cr cur)] end
-  | b :: t =>
-      if b =? 10 then rev (drop_cr cur) :: split_lines_aux t []
-      else split_lines_aux t (b :: cur)
+  | [] => match cur with [] => [] | _ => [cur] end
+  | b :: t => if b =? 10 then cur :: split_rev t [] else split_rev t (b :: cur)
   end.
-Definition split_lines (s : list Z) : list (list Z) := split_lines_aux s [].
 
-(* FillCache on the bytes of a file.  bufio.Scanner gives up on a line that does not fit its
-   64 KiB buffer (bound measured on the real scanner by the harness) *)
+Definition drop_cr (cur : list Z) : list Z :=
+  match cur with c :: cur' => if c =? 13 then cur' else cur | [] => cur end.
+Definition line_of (cur : list Z) : list Z := rev_append (drop_cr cur) [].
+Definition split_lines (s : list Z) : list (list Z) := map line_of (split_rev s []).
+
+(* bufio.Scanner gives up on a line whose raw length reaches its 64 KiB buffer (a line of 65535
+   bytes still loads, 65536 does not: measured on the real scanner) *)
 Definition max_line : Z := 65536.
-Definition fill_cache_text (s : list Z) : cache + load_err :=
-  let lines := split_lines s in
-  if existsb (fun ln => max_line <=? Z.of_nat (length ln)) lines then inr LineTooLong
-  else fill_cache lines.
+
+(* FillCache on the bytes of a file: lines in order; the first bad or overlong line aborts *)
+Fixpoint fill_raw (c : cache) (raw : list (list Z)) : cache + load_err :=
+  match raw with
+  | [] => inl c
+  | cur :: t =>
+      if max_line <=? Z.of_nat (length cur) then inr LineTooLong
+      else match load_line c (line_of cur) with
+           | inl c' => fill_raw c' t
+           | inr e => inr e
+           end
+  end.
+Definition fill_cache_text (s : list Z) : cache + load_err := fill_raw [] (split_rev s []).
 
 (* ------------------------------------------------------------------ using the cache *)
 
